@@ -622,6 +622,7 @@ func CfgC12() PropCfg {
 	w.Cancel, w.Block, w.Donate, w.PlaceBid, w.ModifyBid = 26, 24, 8, 14, 4
 	w.CreateFixed, w.CreateBatch = 10, 10
 	w.MaxAuctions = 5
+	w.DonateWaitingPct = 60
 	return PropCfg{ID: "C12", Weights: w, MinOps: 8, MaxOps: 50, DrivePct: 30,
 		New: func() Monitor { return &monC12{} },
 		NonTrivial: func(h *History) bool {
